@@ -6,7 +6,15 @@ from . import core
 from .core import (Unsupported, guard, wrapint, wrapbool, SymBool, SymInt,
                    set_term, deliberate)
 
-ALPHA = frozenset(range(256))
+BYTES = frozenset(range(256))
+# a few code points beyond latin-1 whose case mapping, folding or class
+# differs in interesting ways (Kelvin sign, long s, trade mark, service mark,
+# numero, double-struck C, square MHz, capital sharp s, Greek alpha pair,
+# combining acute, em space, line separator, fullwidth A pair, an astral one)
+EXTRA = frozenset([0x212A, 0x017F, 0x2122, 0x2120, 0x2116, 0x2102, 0x3392,
+                   0x1E9E, 0x0391, 0x03B1, 0x0301, 0x2003, 0x2028, 0xFF21,
+                   0xFF41, 0x1F600])
+ALPHA = BYTES | EXTRA
 
 # tables computed from the real str methods, so the model is exact inside
 # the alphabet by construction
@@ -20,21 +28,28 @@ ISUPPER = frozenset(c for c in ALPHA if chr(c).isupper())
 ISLOWER = frozenset(c for c in ALPHA if chr(c).islower())
 
 
+class Table(dict):
+    """code point -> code point map over ALPHA (None: leaves the alphabet
+    or is not a single character); hashable by identity"""
+    def __hash__(self):
+        return id(self)
+
+    def __eq__(self, o):
+        return self is o or (isinstance(o, dict) and dict.__eq__(self, o))
+
+
 def _table(f):
-    t = []
-    ok = True
-    for c in range(256):
+    t = Table()
+    for c in ALPHA:
         r = f(chr(c))
-        if len(r) == 1 and ord(r) < 256:
-            t.append(ord(r))
-        else:
-            t.append(None)
-    return tuple(t)
+        t[c] = ord(r) if len(r) == 1 and ord(r) in ALPHA else None
+    return t
 
 
 LOWER = _table(str.lower)
 UPPER = _table(str.upper)
-IDENT = tuple(range(256))
+IDENT = Table((c, c) for c in ALPHA)
+_COMPOSED = {}
 
 
 def compose(m1, m2):
@@ -43,7 +58,12 @@ def compose(m1, m2):
         return m2
     if m2 is None:
         return m1
-    return tuple(None if a is None else m2[a] for a in m1)
+    key = (id(m1), id(m2))
+    r = _COMPOSED.get(key)
+    if r is None:
+        r = _COMPOSED[key] = Table(
+            (c, None if a is None else m2[a]) for c, a in m1.items())
+    return r
 
 
 class SymChar:
@@ -396,7 +416,7 @@ class SymStr:
             if is_sym(ch):
                 out.append(ch.mapped(table))
             else:
-                t = table[ch] if ch < 256 else None
+                t = table.get(ch)
                 if t is None:
                     r = (chr(ch).lower() if table is LOWER
                          else chr(ch).upper())
